@@ -219,11 +219,13 @@ CLAIMED = {
                 "finding; every integer cast is value preserving for all source values; no wrapping / saturating / overflowing "
                 "arithmetic in the scanner; the None of every checked_* step reaches ok_or(..)? and the Result of "
                 "Decimal::try_from_i128_with_scale is propagated, with value = sign * checked accumulator; the token parser maps the "
-                "consumed characters (digits , . -) through try_map(str::parse); and four necessary acceptance guards of the statement, "
+                "consumed characters (digits , . -) through try_map(str::parse); and five necessary acceptance guards of the statement, "
                 "as placement rules on the scanner's state variables: the decimal-point transition is dominated by scale.is_none() (at "
                 "most one point) and reachable only through comma_pos.is_none() / == Some(i) (only after a complete group), a test of "
                 "comma_pos against s.len() that can reject lies on every path from the end of the loop to Ok (complete last group), "
-                "and so does a test of a flag set only on the digit arm (at least one digit).  The rest of the accepted language and "
+                "and so does a test of a flag set only on the digit arm (at least one digit); every path that takes the first comma "
+                "(comma_pos still None) lies under a two-sided bound of the leading group - two ordering tests, one plus a digit-seen "
+                "flag, or a range test (a leading group of one to three; the constants are not decided).  The rest of the accepted language and "
                 "the value function of the state machine are not decided (DESIGN.md section 6.1).",
         "design_ref": "DESIGN.md §4 C07, §6.1",
         "note": TRUSTED,
@@ -240,8 +242,10 @@ CLAIMED = {
                 "the parser's prefix consumes the following blanks.  End of file: every parser that references winnow's bare "
                 "line_ending pairs it with eof in the same alternation, or is tabled as lookahead-only with every reference under "
                 "has_peek.  Round-trip equality of values and idempotence as such are not decided (value level)."
-                "  Also: LineWrapStr writes the prefix verbatim in front of every line.",
-        "design_ref": "DESIGN.md §4 C05",
+                "  Also: LineWrapStr writes the prefix verbatim in front of every line; `format` and `primitive flatten` render "
+                "with DisplayContext::default() and nothing configures a precision on it (numbers keep the decimal places they were "
+                "written with).",
+        "design_ref": "DESIGN.md §4 C05, §10.11",
         "note": TRUSTED,
         "technique": "static analysis: field / variant coverage over the ADT table and MIR place projections, who-may-construct and who-may-reference rules, constant comparison between printer and parser prefixes",
     },
@@ -282,7 +286,8 @@ CLAIMED = {
                 "same statement object; charges are the negated signed amount, zero charges skipped, included / not-included "
                 "dispatched on is_charge_included; an entry without details and every detail of a batched entry is pushed exactly once "
                 "and neither stream is filtered; transactions are dated by value_date.unwrap_or(booking_date) with the booking date "
-                "as effective date; exactly one opening assertion, on a zero-amount transaction pushed inside the statement before "
+                "as effective date; a <DtTm> timestamp keeps the offset it was written with (DateTime<FixedOffset>, never Utc / Local) "
+                "and as_naive_date converts no zone, so the calendar date is the bank's; exactly one opening assertion, on a zero-amount transaction pushed inside the statement before "
                 "its entries, and exactly one closing assertion, on res.last_mut() after the entry loop with nothing pushed "
                 "afterwards; entries are walked forwards for old_to_new and through an odd number of rev() for new_to_old.  "
                 "Conservation of the sums and acceptance by the book-keeping are numerical and not decided.",
